@@ -263,10 +263,15 @@ impl PackageSpecifiers {
     nv: &PackageNv,
     dep: JsrDepPackageReq,
   ) {
+    // the package may not have been registered yet when a loader resolves a
+    // non-registry request to a final specifier inside a registry package
     self
       .packages
-      .get_mut(nv)
-      .unwrap()
+      .entry(nv.clone())
+      .or_insert_with(|| PackageNvInfo {
+        exports: Default::default(),
+        found_dependencies: Default::default(),
+      })
       .found_dependencies
       .insert(dep);
   }
